@@ -98,6 +98,12 @@ trait Labeled:
     def show(self) -> str:
         return self.label
 
+@requires(first: int)
+@requires(second: str)
+trait Twice:
+    def both(self) -> int:
+        return self.first
+
 def fetch() -> Result[int, str]:
     return Ok(1)
 
@@ -130,6 +136,9 @@ STMT = {
 DECL = {
     "R12method": ("«{kw} M with Named:\n    v: int»\n", "{kw} M with Named:\n    v: int\n\n    def name(self) -> str:\n        return \"m\"\n"),
     "R12requires": ("«{kw} M with Labeled:\n    v: int»\n", "{kw} M with Labeled:\n    v: int\n    label: str\n"),
+    "R12requires-stacked": ("«{kw} M with Twice:\n    first: int»\n", "{kw} M with Twice:\n    first: int\n    second: str\n"),
+    "R12method-second-trait": ("«{kw} M with Labeled, Named:\n    label: str»\n",
+                               "{kw} M with Labeled, Named:\n    label: str\n\n    def name(self) -> str:\n        return \"m\"\n"),
 }
 
 
